@@ -174,7 +174,8 @@ def _report(rep, it, results, label, quiet):
                 confirmed = c.replay(ob, r)
             except Exception:
                 confirmed = {"confirmed": False, "what": "replay crashed: " + traceback.format_exc()[-300:]}
-        if r.status == "sat" and (not r.quantified or (confirmed and confirmed.get("confirmed"))):
+        structural = z3_is_false(ob.goal)     # a wiring obligation that evaluated to the constant False on this path: refuted as soon as the path is satisfiable
+        if r.status == "sat" and (not r.quantified or structural or (confirmed and confirmed.get("confirmed"))):
             rep.add_obligation(ob.name, it.fnname, "failed", r.backend, r.secs, label,
                                detail="refuted" + (" (replayed natively)" if confirmed and confirmed.get("confirmed") else ""))
             failed.append((ob, r, confirmed))
@@ -220,6 +221,11 @@ def _report(rep, it, results, label, quiet):
 
 def verify(rep, contract, label="P", canaries=(), timeout_ms=30000, quiet=False, lemma_timeout_ms=30000):
     return verify_many(rep, [(contract, canaries)], label, timeout_ms, quiet, lemma_timeout_ms)[0]
+
+
+def z3_is_false(g):
+    import z3
+    return z3.is_false(g) or (isinstance(g, bool) and g is False)
 
 
 def z3_false():
